@@ -21,9 +21,10 @@ def PreSpec.orElse (a b : PreSpec) : PreSpec :=
   | some x, some y => some (x ++ y)
   | _, _ => none
 
-/-- the member `key` as defined in class `k`'s own namespace -/
+/-- the member `key` as *declared* in the body of class `k` (members the invariant decorator copies
+down from a base are not declarations) -/
 def ownMember (w : World) (k : ClsId) (key : String) : Option Member :=
-  (w.cls? k).bind (fun c => (c.ns.find? (·.1 == key)).map (·.2))
+  (w.cls? k).bind (fun c => if c.declared.contains key then (c.ns.find? (·.1 == key)).map (·.2) else none)
 
 /-- first class of the MRO of `k` that defines `key` -/
 def provider (w : World) (k : ClsId) (key : String) : Option ClsId :=
